@@ -610,6 +610,13 @@ func runProperty(id string, prop Property, tier string, seed int64, replay strin
 
 	// classify
 	os.MkdirAll(filepath.Join(verifDir, "replays"), 0755)
+	if replay == "" {
+		if old, _ := filepath.Glob(filepath.Join(verifDir, "replays", id+"-*.json")); old != nil {
+			for _, f := range old {
+				os.Remove(f)
+			}
+		}
+	}
 	knownSeen := map[string]int{}
 	knownWhat := map[string]string{}
 	nViol := 0
